@@ -93,7 +93,13 @@ class SubRun:
 
         async def mk():
             p = IpPairing(controller, pdata)
-            p.restore_accessories_state(simnet.DEFAULT_ACCESSORIES, 1, None)
+            # what the pairing knows about the accessory when events arrive: the whole database, a stale one that lacks a
+            # bridged accessory (events for an accessory id it has never seen), or nothing yet
+            known = rng.choice(["all", "all", "stale", "none"])
+            if known == "all":
+                p.restore_accessories_state(simnet.DEFAULT_ACCESSORIES, 1, None)
+            elif known == "stale":
+                p.restore_accessories_state([a for a in simnet.DEFAULT_ACCESSORIES if a.get("aid") == 1], 1, None)
             return p
         self.pairing = self.loop.run_until_complete(mk())
         self.cur = None
@@ -103,7 +109,14 @@ class SubRun:
         self.free_ops = [1, 2]
         self.ev_n = {}
         self.loop_exceptions = []
-        self.loop.set_exception_handler(lambda l, c: self.loop_exceptions.append(str(c.get("exception") or c.get("message"))))
+        def on_loop_exception(l, c):
+            # an exception that escapes from the library into the event loop (asyncio then tears the transport down) is an
+            # event of the execution: the specification has no step that explains it
+            what = str(c.get("exception") or c.get("message"))
+            self.loop_exceptions.append(what)
+            if c.get("exception") is not None and not (self.events and self.events[-1].get("ev") == "end"):
+                self.log("loop_exc", what=f"{type(c.get('exception')).__name__}: {what}"[:160])
+        self.loop.set_exception_handler(on_loop_exception)
 
     def log(self, ev, **kw):
         if ev in ("tcp_call", "tcp_res", "tcp_ok", "acc_rx", "acc_tx"):
